@@ -47,7 +47,7 @@ type Acons struct {
 // Call the function with the arguments provided.
 func (f *Acons) Call(s *slip.Scope, args slip.List, depth int) (result slip.Object) {
 	slip.CheckArgCount(s, depth, f, args, 3, 3)
-	cons := slip.List{args[0], slip.Tail{Value: args[1]}}
+	cons := slip.Cons(args[0], args[1])
 	switch alist := args[2].(type) {
 	case nil:
 		return slip.List{cons}
